@@ -778,3 +778,90 @@ pub fn drive_c13(seed: u64, thorough: bool, out: &mut dyn Write) -> usize {
     }
     e.id
 }
+
+/// C12: string and bytes literals denote exactly the characters written.
+pub fn drive_c12(seed: u64, thorough: bool, out: &mut dyn Write) -> usize {
+    let mut e = Emit { out, id: 0 };
+    let mut rng = Rng::new(seed);
+    let sv = |x: &str| Value::String(Arc::new(x.to_string()));
+    let styles: Vec<(&str, &str)> = vec![("'", "'"), ("\"", "\""), ("'''", "'''"), ("\"\"\"", "\"\"\"")];
+    let mut bodies: Vec<String> = vec![];
+    for v in 0..256u32 {
+        bodies.push(format!("\\x{:02x}", v));
+        bodies.push(format!("\\X{:02X}", v));
+        bodies.push(format!("\\{:03o}", v));
+    }
+    for v in 256..512u32 {
+        if thorough || v % 8 == 0 {
+            bodies.push(format!("\\{:03o}", v)); // \400 .. \777: not escapes
+        }
+    }
+    let mut us: Vec<u32> = (0..0x10000u32).filter(|v| thorough || v % 61 == 0 || *v < 0x100 || (*v >= 0xd7f0 && *v <= 0xe010) || *v >= 0xfff0).collect();
+    us.extend_from_slice(&[0x7f, 0x80, 0x7ff, 0x800, 0xffff]);
+    for v in &us {
+        bodies.push(format!("\\u{:04x}", v));
+    }
+    let mut big: Vec<u32> = vec![0, 0x41, 0xffff, 0x10000, 0x10001, 0x1f431, 0x1ffff, 0x20000, 0xfffff, 0x100000, 0x10fffe, 0x10ffff, 0x110000, 0x110001, 0xd800, 0xdbff, 0xdc00, 0xdfff,
+                                 0xd7ff, 0xe000, 0x7fffffff, 0x80000000, 0xffffffff, 0x00ffffff, 0x01000000];
+    for _ in 0..(if thorough { 3000 } else { 150 }) {
+        big.push((rng.next_u64() % 0x120000) as u32);
+    }
+    for v in &big {
+        bodies.push(format!("\\U{:08x}", v));
+    }
+    for c in ["a", "b", "f", "n", "r", "t", "v", "\\", "?", "\"", "'", "`"] {
+        bodies.push(format!("\\{}", c));
+    }
+    for bad in ["\\q", "\\8", "\\9", "\\x1", "\\xg0", "\\u12", "\\u123g", "\\U0001f43", "\\1", "\\12", "\\128", "\\", "\\ ", "\\e", "\\A", "\\N", "\\x", "\\u", "\\U", "\\0", "\\00"] {
+        bodies.push(bad.to_string());
+    }
+    for (i, b) in bodies.iter().enumerate() {
+        for (k, (open, close)) in styles.iter().enumerate() {
+            // quick tier: \u sweep in one style per value (rotating); everything else in every style
+            if !thorough && b.starts_with("\\u") && b.len() == 6 && (i + k) % 4 != 0 {
+                continue;
+            }
+            for prefix in ["", "b", "r", "br", "B", "R", "bR"] {
+                if !thorough && (prefix == "B" || prefix == "R" || prefix == "bR") && (i % 7 != 0) {
+                    continue;
+                }
+                // embed with neighbours so that slicing mistakes show
+                for (pre, post) in [("", ""), ("é", "z")] {
+                    if pre == "é" && !thorough && i % 5 != 0 {
+                        continue;
+                    }
+                    let src = format!("{}{}{}{}{}{}", prefix, open, pre, b, post, close);
+                    let o = prog_apply(&src, &[]);
+                    e.rec("strlit", "lit", &sv(&src), &Value::Null, &src, o);
+                }
+            }
+        }
+    }
+    // random strings / byte sequences in every applicable style with random escape / verbatim choices
+    let alphabet: Vec<char> = vec!['a', 'Z', '0', ' ', '\'', '"', '\\', '\n', '\r', '\t', 'é', 'ß', '日', '🐱', '\u{0}', '\u{7f}', '\u{ffff}', '`', '?', '\u{80}', '\u{ff}'];
+    for _ in 0..(if thorough { 30000 } else { 3000 }) {
+        let n = rng.below(6);
+        let (open, close) = styles[rng.below(4)];
+        let raw = rng.chance(1, 5);
+        let bytes = rng.chance(1, 3);
+        let mut body = String::new();
+        for _ in 0..n {
+            let c = *rng.pick(&alphabet);
+            let choice = if raw { 0 } else { rng.below(6) };
+            let v = c as u32;
+            match choice {
+                1 if v < 256 => body.push_str(&format!("\\x{:02x}", v)),
+                2 if v < 256 => body.push_str(&format!("\\{:03o}", v)),
+                3 if v < 0x10000 && !bytes => body.push_str(&format!("\\u{:04x}", v)),
+                4 if !bytes => body.push_str(&format!("\\U{:08x}", v)),
+                5 => match c { '\n' => body.push_str("\\n"), '\r' => body.push_str("\\r"), '\t' => body.push_str("\\t"), '\\' => body.push_str("\\\\"), '\'' => body.push_str("\\'"),
+                               '"' => body.push_str("\\\""), '`' => body.push_str("\\`"), '?' => body.push_str("\\?"), _ => body.push(c) },
+                _ => body.push(c),
+            }
+        }
+        let src = format!("{}{}{}{}{}", if bytes { "b" } else { "" }, if raw { "r" } else { "" }, open, body, close);
+        let o = prog_apply(&src, &[]);
+        e.rec("strlit", "lit", &sv(&src), &Value::Null, &src, o);
+    }
+    e.id
+}
